@@ -59,6 +59,7 @@ class NP:
     exp = staticmethod(_elem(lambda x: atoms.exp(_q(x))))
     cos = staticmethod(_elem(lambda x: atoms.cos(_q(x))))
     sin = staticmethod(_elem(lambda x: atoms.sin(_q(x))))
+    tan = staticmethod(_elem(lambda x: atoms.sin(_q(x)) / atoms.cos(_q(x))))
     abs = staticmethod(_elem(lambda x: atoms.absval(_q(x))))
     absolute = abs
     real = staticmethod(_elem(lambda x: _q(x).real))
